@@ -197,12 +197,18 @@ func processFile(filePath string, ctxt *processors.Context, checkOnly bool) erro
 		return err
 	}
 
-	if !checkStandardHeader(lines) {
+	hasHeader := checkStandardHeader(lines)
+	if !hasHeader {
 		logger.Info().Msgf("file %s does not have standard header", filename)
 		// prepend the standard header
 		lines = append([]string{regexAssemblyStandardHeader}, lines...)
 	}
 	lines = formatEndOfFile(lines)
+	if hasHeader && len(lines) == 3 {
+		// Only the header is left. Its empty line is part of the header,
+		// not a trailing empty line of the file, so it must be kept.
+		lines = append(lines, "")
+	}
 
 	newContents := []byte(strings.Join(lines, "\n"))
 	if checkOnly {
